@@ -66,6 +66,9 @@ func genC16(r *simrt.RNG, tier string, variant int) Plan {
 			p.Ops = append(p.Ops, Op{Kind: "revsub", Client: 0, Tok: tok, N: Pick(r, []int{3, 10}), Phase: 1, Hold: r.Bool(0.7)})
 			tok++
 		}
+		if r.Bool(0.4) {
+			p.Params["late_panic"] = 1
+		}
 		// black holes are excluded: a server without a read timeout cannot notice a
 		// silent peer, so for the server that connection is not "gone"
 		p.Faults = []Fault{{Kind: Pick(r, []string{"fin", "rst"}), Pipe: 0, Dir: Pick(r, []string{"c2s", "s2c"}),
@@ -86,11 +89,16 @@ func runC16(e *Env, p *Plan) {
 	for _, f := range p.Faults {
 		e.N.PlanCut(f.Pipe, simnet.Cut{Dir: f.Dir, Frame: f.Frame, Pos: f.Pos, Kind: f.Kind})
 	}
-	var lateGates []chan struct{}
+	var lateGates, lateGates2 []chan struct{}
 	for _, op := range p.Ops {
 		op := op
 		if op.Phase == 0 {
 			if len(p.Faults) > 0 && (op.Kind == "rev" && op.Tok%2 == 1 || op.Kind == "revsub" && op.Hold) && op.Client == 0 {
+				if op.Kind == "rev" && p.Param("late_panic", 0) > 0 && op.Tok%4 == 1 {
+					// ... and then panics: its error reply belongs to the old connection too
+					op.Panic = "string"
+					e.Probe("old-reverse-handler-panics-after-reconnect")
+				}
 				// this call's client-side handler finishes only after the reconnect,
 				// while later reverse calls are in flight on the new connection
 				g := make(chan struct{})
@@ -109,6 +117,15 @@ func runC16(e *Env, p *Plan) {
 			continue
 		}
 		tk := w.Register(op)
+		if op.Kind == "rev" && op.Hold {
+			// its client-side handler stays in flight on the new connection until
+			// the old connection's handlers have finished (or failed)
+			g := make(chan struct{})
+			lateGates2 = append(lateGates2, g)
+			tk.mu.Lock()
+			tk.Gate = g
+			tk.mu.Unlock()
+		}
 		if op.Kind == "revsub" && op.Hold {
 			// its producer also pauses after the first value, so that the stream is
 			// still open when the old connection's producers resume
@@ -130,15 +147,24 @@ func runC16(e *Env, p *Plan) {
 			w.Exec(op, nil)
 		})
 	}
-	if len(lateGates) > 0 {
+	if len(lateGates)+len(lateGates2) > 0 {
 		e.S.Go("late-release", func() {
 			<-faultC
 			for i := 0; i < 80; i++ {
 				simrt.Yield("late-release-delay")
 			}
 			time.Sleep(400 * time.Millisecond)
-			e.Probe("old-reverse-handler-finishes-after-reconnect")
+			simrt.Yield("late-release-wake")
+			if len(lateGates) > 0 {
+				e.Probe("old-reverse-handler-finishes-after-reconnect")
+			}
 			for _, g := range lateGates {
+				close(g)
+			}
+			for i := 0; i < 30; i++ {
+				simrt.Yield("late-release-delay2")
+			}
+			for _, g := range lateGates2 {
 				close(g)
 			}
 		})
@@ -226,6 +252,10 @@ func runC16(e *Env, p *Plan) {
 			continue
 		}
 		if rerr != nil {
+			if t.Panic == "" && strings.Contains(rerr.Error(), "panic") {
+				e.Violate("C16.reverse-identity", "tok=%d on client %s failed with a panic error although none of its handlers panics - another call's failure reached it: %v", t.ID, cp.Name, rerr)
+				continue
+			}
 			if faultyConn[cp.Name] && (isConnErr(rerr) || strings.Contains(rerr.Error(), "reverr")) {
 				continue
 			}
